@@ -91,6 +91,7 @@ TEMPLATES = {
     "is_mismatch": ["assert [{a}, {b}] == snapshot([Is({b}), {a}])"],
     "unreached_after_fail": ["assert {a} == snapshot({b})", "assert {a} <= snapshot()", "assert {a} in snapshot()"],
     "snapshot_never_compared": ["s = snapshot({a} + 0)", "t = snapshot()", "assert True"],
+    "defaultdict_one_argument": ["u = snapshot(defaultdict(list))", "for i in range(2):", "    assert defaultdict(list) == snapshot(defaultdict(list))", "d = defaultdict(list)", "d[{a}].append({b})", "assert d == snapshot(defaultdict(list))"],
     "container_never_compared": ["s = snapshot([{a} + 0, {b} + 0, ({a} + 1, {{'k': {b} + 1}})])", "t = snapshot({{'a': 1 + 1, 'b': [2 + 2, Is({a})]}})", "assert True"],
     "snapshot_only_repr": ["s = snapshot([{a}])", "assert repr(s) == '[%d]' % {a}"],
     "getitem_nested_missing": ["s = snapshot({{}})", "assert s['a']['b'] == {a}", "assert {b} in s['c']"],
